@@ -47,7 +47,8 @@ SHELL := /usr/bin/env bash
 .SHELLFLAGS := -e -o pipefail -c
 
 CC = cc
-CFLAGS = -Wall -Wextra -Werror -std=c99 -g -Isrc -D_GNU_SOURCE
+# -fwrapv: nanolang integers wrap at 64 bits; the evaluator and the VM compute on int64_t directly
+CFLAGS = -Wall -Wextra -Werror -std=c99 -fwrapv -g -Isrc -D_GNU_SOURCE
 LDFLAGS = -lm
 
 # On Linux, dlopened module shared libraries rely on host-exported runtime symbols
